@@ -58,6 +58,27 @@ fn load(path: &str) -> Plugin {
     }
 }
 
+/// A context that stands for "the library is loaded": its payload's Drop captures the call
+/// stack.  If the last reference dies while a generated `cglue_wrapped_*` frame is on the
+/// stack, the library would have been unloaded from under its own running code.
+static LIB_TRACES: std::sync::Mutex<Vec<(u64, bool, String)>> = std::sync::Mutex::new(Vec::new());
+pub struct LibLike(pub u64);
+impl Drop for LibLike {
+    fn drop(&mut self) {
+        let bt = std::backtrace::Backtrace::force_capture().to_string();
+        let inside = bt.contains("cglue_wrapped_");
+        let frames: Vec<&str> = bt.lines().filter(|l| l.contains("cglue_wrapped_")).take(3).collect();
+        LIB_TRACES.lock().unwrap().push((self.0, inside, frames.join(" | ")));
+    }
+}
+#[inline(never)]
+fn cglue_wrapped_canary(l: Arc<LibLike>) {
+    drop(l);
+}
+fn lib_verdict(id: u64) -> Option<(bool, String)> {
+    LIB_TRACES.lock().unwrap().iter().find(|x| x.0 == id).map(|x| (x.1, x.2.clone()))
+}
+
 /// where the objects of one run come from
 trait Side {
     fn root(&self, ctx: CArc<c_void>) -> FactoryArcBox<'static>;
@@ -254,6 +275,10 @@ fn main() {
     };
     let host_info = format!("host: rustc {} debug_assertions={} size_of<Mem>={} size_of<Fac>={}", option_env!("XMOD_RUSTC").unwrap_or("?"), cfg!(debug_assertions), std::mem::size_of::<Mem>(), std::mem::size_of::<Fac>());
     rep.sample("C05 module pair", &format!("{} | {}", host_info, text(plugin.info)));
+    // the backtrace oracle must be able to see a wrapper frame in this build (else that clause is not judged)
+    cglue_wrapped_canary(Arc::new(LibLike(1)));
+    let canary_ok = lib_verdict(1).map(|v| v.0).unwrap_or(false);
+    rep.add("backtrace_canary_ok", canary_ok as u64);
     for h in 0..nhist {
         let hs = seed.wrapping_mul(1_000_003).wrapping_add(h);
         let pm = unsafe { (plugin.marks)() };
@@ -286,6 +311,21 @@ fn main() {
         // the borrowed-child leak (C07) pins one context clone -> the context payloads may stay alive; instances must not
         if ps.live_payloads != 0 {
             rep.violation("C05:plugin-instances-leaked", &format!("history {}: {} payloads created in the plugin are still alive after everything was dropped", hs, ps.live_payloads), &format!("{}", hs));
+        }
+        // the object is the only holder of its context and is consumed by a by-value call into the other module
+        if canary_ok {
+            let id = 1_000_000 + h;
+            let lib = Arc::new(LibLike(id));
+            let weak = Arc::downgrade(&lib);
+            let obj = plugin.root(CArc::<LibLike>::from(lib).into_opaque());
+            let _ = obj.stats();
+            let _ = obj.fin();
+            match lib_verdict(id) {
+                _ if weak.strong_count() != 0 => rep.violation("C05:context-not-released", &format!("history {}: the consumed object was the only holder, the context is still alive", hs), &format!("{}", hs)),
+                Some((true, frames)) => rep.violation("C05:context-released-inside-consuming-call", &format!("history {}: the last context reference was released while the other module's wrapper was still running: {}", hs, frames.replace('"', "'")), &format!("{}", hs)),
+                Some((false, _)) => rep.add("consuming_calls_with_sole_context", 1),
+                None => rep.violation("C05:context-not-released", &format!("history {}: context payload never dropped", hs), &format!("{}", hs)),
+            }
         }
         rep.add("histories", 1);
         rep.add("plugin_tracking_active", ps.tracking_active);
